@@ -846,3 +846,176 @@ func execC05Abandon(t *testing.T, c C05Abandon) (v Verdict) {
 }
 
 func TestC05Abandon(t *testing.T) { checkProp(t, "C05", "abandon", genC05Abandon, execC05Abandon) }
+
+// ---- C05 pace: receivers of any pace ---------------------------------------------------------------
+
+// C05Pace: a bidirectional stream on each of 1..3 client connections of one server; on each the caller sends Up
+// messages and the handler sends Down messages back to back, while each side *receives* at its own pace (pauses of
+// 0..60 ms of virtual time before each receive). Envelopes therefore back up in the connection for longer than any timer
+// inside the library; whatever the library does with an envelope it cannot hand over at once, every side must receive
+// exactly the other side's messages of its own stream, in the order they were sent.
+// (One stream per connection: while a read loop is parked on a slow receiver it holds the connection's registry mutex,
+// and a second call of the same connection queueing for that mutex - to register or unregister - is not "durably
+// blocked" for testing/synctest, so the bubble's clock would stand still and the slow receiver would never wake up.)
+type C05Pace struct {
+	Streams int   `json:"streams"`
+	Up      int   `json:"up"`
+	Down    int   `json:"down"`
+	CPause  []int `json:"c_pause"` // ms before the caller's j-th receive (cyclic)
+	HPause  []int `json:"h_pause"` // ms before the handler's j-th receive (cyclic)
+	Ser     bool  `json:"ser"`
+	Stats   bool  `json:"stats,omitempty"`
+	// Real: the case runs in real time instead of a synctest bubble (pauses capped at 25 ms). In the bubble a goroutine
+	// that queues for a mutex stops the virtual clock, so a library that parks envelopes with helper goroutines and timers
+	// shows up there as a stalled case; in real time it shows what the application would see.
+	Real bool `json:"real,omitempty"`
+}
+
+func genC05Pace(t *rapid.T) C05Pace {
+	pause := rapid.SampledFrom([]int{0, 0, 1, 3, 7, 11, 15, 25, 60})
+	return C05Pace{Streams: rapid.IntRange(1, 3).Draw(t, "streams"), Up: rapid.IntRange(0, 8).Draw(t, "up"), Down: rapid.IntRange(0, 8).Draw(t, "down"),
+		CPause: rapid.SliceOfN(pause, 1, 4).Draw(t, "c_pause"), HPause: rapid.SliceOfN(pause, 1, 4).Draw(t, "h_pause"),
+		Ser: rapid.Bool().Draw(t, "ser"), Stats: rapid.IntRange(0, 3).Draw(t, "stats") == 0, Real: false}
+}
+
+func execC05Pace(t *testing.T, c C05Pace) (v Verdict) {
+	var mu sync.Mutex
+	hgot := make([][][]byte, c.Streams)
+	cgot := make([][][]byte, c.Streams)
+	cend := make([]*kit.ErrObs, c.Streams)
+	hend := make([]*kit.ErrObs, c.Streams)
+	pauseOf := func(p []int, j int) time.Duration {
+		ms := p[j%len(p)]
+		if c.Real && ms > 25 {
+			ms = 25
+		}
+		return time.Duration(ms) * time.Millisecond
+	}
+	settle := kit.Settle
+	run := func(f func()) kit.RunResult { return kit.Bubble(t, f) }
+	if c.Real {
+		settle = func() {}
+		run = func(f func()) kit.RunResult { f(); return kit.RunResult{} }
+	}
+	res := run(func() {
+		svc := kit.NewSvc()
+		svc.Stream("p", true, true, func(s grpcServerStream) error {
+			b, err := kit.RecvBytes(s)
+			if err != nil || len(b) != 1 {
+				return err
+			}
+			i := int(b[0])
+			sent := make(chan struct{})
+			go func() {
+				defer close(sent)
+				for j := 0; j < c.Down; j++ {
+					if kit.SendBytes(s, []byte{0xD0, byte(i), byte(j)}) != nil {
+						return
+					}
+				}
+			}()
+			for j := 0; ; j++ {
+				time.Sleep(pauseOf(c.HPause, j))
+				b, err := kit.RecvBytes(s)
+				if err != nil {
+					e := kit.Observe(err)
+					mu.Lock()
+					hend[i] = &e
+					mu.Unlock()
+					break
+				}
+				mu.Lock()
+				hgot[i] = append(hgot[i], b)
+				mu.Unlock()
+			}
+			<-sent
+			return nil
+		})
+		w := kit.NewWorld(kit.Topo{Kind: "direct", Serialize: c.Ser, Clients: c.Streams, Stats: c.Stats}, svc, nil, nil)
+		var wg sync.WaitGroup
+		for i := 0; i < c.Streams; i++ {
+			i := i
+			wg.Add(1)
+			go func() {
+				defer wg.Done()
+				ctx, cancel := context.WithTimeout(context.Background(), time.Hour)
+				defer cancel()
+				cs, err := w.Conn(i).NewStream(ctx, kit.StreamDescFor(kit.KindBidi), kit.FullMethod("p"))
+				if err != nil {
+					return
+				}
+				if kit.SendBytes(cs, []byte{byte(i)}) != nil {
+					return
+				}
+				go func() {
+					for j := 0; j < c.Up; j++ {
+						if kit.SendBytes(cs, []byte{0xA0, byte(i), byte(j)}) != nil {
+							return
+						}
+					}
+					_ = cs.CloseSend()
+				}()
+				for j := 0; ; j++ {
+					time.Sleep(pauseOf(c.CPause, j))
+					b, err := kit.RecvBytes(cs)
+					if err != nil {
+						e := kit.Observe(err)
+						cend[i] = &e
+						return
+					}
+					cgot[i] = append(cgot[i], b)
+				}
+			}()
+		}
+		wg.Wait()
+		settle()
+		w.Shutdown()
+		settle()
+	})
+	if res.Panic != nil {
+		v.failf("panic: %v\n%s", res.Panic, res.Stack)
+	}
+	check := func(who string, i int, got [][]byte, tag byte, n int, end *kit.ErrObs) {
+		for j, b := range got {
+			if len(b) != 3 || b[0] != tag || int(b[1]) != i {
+				v.failf("stream %d: the %s received %v: not a message of this stream", i, who, b)
+				return
+			}
+			if int(b[2]) != j {
+				v.failf("stream %d: the %s's receive #%d returned message #%d: per-call order broken, or a message lost or duplicated (receiver pauses %v ms)", i, who, j, b[2], map[string][]int{"caller": c.CPause, "handler": c.HPause}[who])
+				return
+			}
+		}
+		if end == nil {
+			v.failf("stream %d: the %s never saw the end of the stream", i, who)
+		} else if !end.EOF {
+			v.failf("stream %d: the %s's stream ended with %q, want io.EOF", i, who, end.Raw)
+		} else if len(got) != n {
+			v.failf("stream %d: the %s saw io.EOF after %d of %d messages", i, who, len(got), n)
+		}
+	}
+	for i := 0; i < c.Streams; i++ {
+		check("caller", i, cgot[i], 0xD0, c.Down, cend[i])
+		check("handler", i, hgot[i], 0xA0, c.Up, hend[i])
+	}
+	maxP := 0
+	for _, p := range append(append([]int{}, c.CPause...), c.HPause...) {
+		if p > maxP {
+			maxP = p
+		}
+	}
+	v.Info = kit.CaseInfo{Labels: []string{"pace", fmt.Sprintf("pace.slow_receiver=%v", maxP >= 11), fmt.Sprintf("pace.conns=%d", c.Streams), fmt.Sprintf("pace.real_time=%v", c.Real)},
+		NonTrivial: maxP >= 11 && (c.Up >= 3 || c.Down >= 3), Key: fmt.Sprintf("%+v", c), Sample: c}
+	return
+}
+
+func TestC05Pace(t *testing.T) { checkProp(t, "C05", "pace", genC05Pace, execC05Pace) }
+
+// TestC05PaceReal runs the same cases in real time only (see C05Pace.Real).
+func TestC05PaceReal(t *testing.T) {
+	checkProp(t, "C05", "pace-real", func(t *rapid.T) C05Pace {
+		c := genC05Pace(t)
+		c.Real = true
+		return c
+	}, execC05Pace)
+}
